@@ -138,7 +138,8 @@ def lib_os_stat(e, n, st, old):
     p = e.ev(n.args[0], st, old)
     ex = e.ctx.app("fs_exists", [FS, STR], BOOL, [fs_of(st), p])
     if not e.branch(ex, st):
-        raise RaiseEx("FileNotFoundError", None, n.lineno)
+        # os.path.exists is False for every OSError of stat: a missing file, but also a path below a regular file (ENOTDIR), an over-long name, ...
+        raise RaiseEx(("FileNotFoundError", "NotADirectoryError", "OSError")[e.choice(3)], None, n.lineno)
     r = e.ctx.fresh(REF, "stat")
     st.pc.append(f"(= (|sattr_st_size| {r.s}) (|fs_size| {fs_of(st).s} {p.s}))")
     st.pc.append(f"(= (|sattr_st_mtime| {r.s}) (|fs_mtime| {fs_of(st).s} {p.s}))")
@@ -150,7 +151,8 @@ def lib_open_rb(e, n, st, old):
     p = e.ev(n.args[0], st, old)
     ex = e.ctx.app("fs_exists", [FS, STR], BOOL, [fs_of(st), p])
     if not e.branch(ex, st):
-        raise RaiseEx("FileNotFoundError", None, n.lineno)
+        # FileSystem.open re-raises as RedunFileNotFoundError (a FileNotFoundError) or, for ENOTDIR / ENAMETOOLONG / ..., RedunOSError (an OSError)
+        raise RaiseEx(("FileNotFoundError", "OSError")[e.choice(2)], None, n.lineno)
     r = e.ctx.fresh(REF, "stream")
     st.pc.append(f"(= (|stream_bytes| {r.s}) (|fs_bytes| {fs_of(st).s} {p.s}))")
     return r
@@ -228,7 +230,8 @@ contracts = {
  "IDir._calc_hash": dict(where=f"{F}:IDir._calc_hash", params={"self": REF, "files": Opt(Seq(REF))}, returns=STR, ghost=G, no_raise=True,
     ensures=["result == hash_struct([self.type_basename, self.path])"]),
  "ContentFile._calc_hash": dict(where=f"{F}:ContentFile._calc_hash", params={"self": REF}, returns=STR, ghost=G, no_raise=True,
-    lib={"self.filesystem.open(": lib_open_rb, "hash_stream(": lib_hash_stream},
+    lib={"self.filesystem.open(": lib_open_rb, "hash_stream(": lib_hash_stream,
+         "self.filesystem.exists(": lambda e, n, st, old: e.ctx.app("fs_exists", [FS, STR], BOOL, [fs_of(st), e.ev(n.args[0], st, old)])},
     # content-hashed: when the file exists the hash is a function of the path and the bytes only
     ensures=["implies(fs_exists(fs, self.path), result == hash_struct([self.type_basename, self.path, hstream(fs_bytes(fs, self.path))]))"],
     # missing path: a deterministic hash (same object, path missing in both filesystem states => same hash), not an error
@@ -343,7 +346,7 @@ def bounded_fs(tier, seed):
 
 EXTRA_CHECKS = [bounded_fs]
 EXPECTED_MIN_OBLIGATIONS = 80
-TRUSTED = ["A-FS (ghost filesystem: exists/size/mtime/bytes are functions of an abstract state replaced at every filesystem-changing call)", "A-HASH (hash_struct, hash_stream as functions)",
+TRUSTED = ["A-FS (ghost filesystem: exists/size/mtime/bytes are functions of an abstract state replaced at every filesystem-changing call; stat / open of a path that does not exist raise some OSError, not necessarily FileNotFoundError)", "A-HASH (hash_struct, hash_stream as functions)",
            "A-SORT (sorted of pointwise equal sequences)", "A-IO (a stream's __exit__ calls the close attribute installed on the instance)",
            "FileSet.__iter__ / FileSystem.iter_file_hashes (generators over glob): assumed to list fresh File objects for the paths matching now",
            "non-local filesystems: FileSystem.get_hash assumed total and a function of the filesystem state (LocalFileSystem.get_hash is verified)",
